@@ -4,6 +4,9 @@ from vf.props import common as C
 
 def plan(tier):
     conds = C.t_upd_conds("C19", tier, kinds=range(11))
+    for case in range(18):
+        hp, nu, nw = case // 9, (case // 3) % 3, case % 3
+        conds.append(Cond("vf.h.h_req", "h_step", case=case, timeout=300, label=f"H19-req[hist={hp},unread={nu},waiting={nw}]", weight=1 + nu * nw * 3))
     conds.append(Cond("vf.h.h_misc", "h_wait", case=0, timeout=300, label="H19-wait", weight=3))
     conds.append(Cond("vf.h.h_misc", "h_timediff", case=0, timeout=300, label="H19-timediff", weight=3))
     conds.append(Cond("vf.h.h_misc", "h_load", case=0, timeout=300, label="H19-load", weight=3))
@@ -13,7 +16,7 @@ def plan(tier):
         "min_classes": 20,
         "explanation": "C19 (at the level of the Report objects handed to the reporter): T-upd: per vehicle update at most one move and one charge event, move distance == odometer change, "
                        "charge energy == energy gained, price == payment received by the right station, no state change without its event; pickup/drop-off events <=> request status changes (C03 oracle). "
-                       "H19-wait: real report_pickup_request: 0 <= wait <= cancel timeout + one step for any admission/pickup schedule; H19-timediff: real time_diff == (end-start) mod 86400 s; "
+                       "H19-req: one ADD event per admitted and one CANCEL event per cancelled request in a real admission + cancellation step (bursts included); H19-wait: real report_pickup_request: 0 <= wait <= cancel timeout + one step for any admission/pickup schedule; H19-timediff: real time_diff == (end-start) mod 86400 s; "
                        "H19-load: real construct_station_load_events: one load event per station, energy == sum of its charge events; H19-stats: real StatsHandler.handle counters == event counts.",
         "entry_points": ["vehicle_event_ops.vehicle_move_event/vehicle_charge_event/report_pickup_request/report_dropoff_request/construct_station_load_events", "StatsHandler.handle",
                          "time_helpers.time_diff", "step_simulation_ops.step_vehicle"],
